@@ -1,6 +1,8 @@
 # Copyright (c) 2007-2009 PediaPress GmbH
 # See README.rst for additional licensing informationodes.
 
+import copy
+
 from mwlib.core import nshandling
 from mwlib.parser import nodes
 from mwlib.parser.refine import core
@@ -216,8 +218,24 @@ def _change_classes(node):
             _change_classes(child)
 
 
+def _unshare_tokens(token, seen):
+    """Malformed markup (e.g. a heading spanning table cells) can leave one token object in two
+    places of the token tree. Each place gets an object of its own, so that the result is a tree."""
+    children = token.children
+    if not children:
+        return
+    for idx, child in enumerate(children):
+        if not isinstance(child, Token):
+            continue
+        if id(child) in seen:
+            child = children[idx] = copy.deepcopy(child)
+        seen.add(id(child))
+        _unshare_tokens(child, seen)
+
+
 def parse_txt(raw, **kwargs):
     sub = core.parse_txt(raw, **kwargs)
     article = Token(type=Token.t_complex_article, start=0, len=0, children=sub)
+    _unshare_tokens(article, {id(article)})
     _change_classes(article)
     return article
